@@ -79,6 +79,55 @@ CORPUS = [  # regression inputs: former defects of the pinned tree (known_findin
 ]
 
 
+def length_schema():
+    """length-delimited fields under one-, two- and three-byte tags: the size of a length prefix depends on the payload alone
+    (seeded change C09-5: a prefix sized from payload + key is one byte too long exactly when the payload is 127 / 16383 bytes)"""
+    F, E = msggen.Field, msggen.Elem
+    sc = msggen.scalar
+    inner = msggen.Cls("LInner", [F("s", 1, "plain", sc("string")), F("b", 2047, "plain", sc("bytes"))])
+    outer = msggen.Cls("LOuter", [
+        F("s1", 1, "plain", sc("string")), F("b15", 15, "plain", sc("bytes")), F("s16", 16, "plain", sc("string")),
+        F("b2047", 2047, "plain", sc("bytes")), F("s2048", 2048, "plain", sc("string")),
+        F("m3", 3, "plain", E("msg", "message", 0)), F("m17", 17, "plain", E("msg", "message", 0)),
+        F("r4", 4, "repeated", sc("fixed32")), F("r18", 18, "repeated", sc("bool")),
+        F("rs5", 5, "repeated", sc("string")), F("rm19", 19, "repeated", E("msg", "message", 0)),
+        F("mp6", 6, "map", sc("bytes"), key=sc("string")), F("mp20", 20, "map", E("msg", "message", 0), key=sc("int32")),
+        F("o7", 7, "optional", sc("string")), F("u8", 8, "plain", sc("bytes"), group=0), F("u21", 21, "plain", E("msg", "message", 0), group=0)], 1)
+    return msggen.Schema([inner, outer], [])
+
+
+LENGTHS = [0, 1, 125, 126, 127, 128, 129, 16381, 16382, 16383, 16384, 16385]
+
+
+def length_cases(s):
+    """messages of length_schema() whose length-delimited payloads sit on and around the 1->2 and 2->3 byte prefix boundaries,
+    for the payload itself, for payload + key, and for the enclosing message / entry"""
+    Inner, Outer = s.classes[0].py, s.classes[1].py
+    out = []
+    for n in LENGTHS:
+        for d in (0, 1, 2, 3, 4):          # the child's own key and prefix take 2-4 bytes: put the CHILD on the boundary too
+            k = max(0, n - d)
+            out.append((f"str{k}", Outer(s1="a" * k)))
+            out.append((f"bytes15-{k}", Outer(b15=b"x" * k)))
+            out.append((f"str16-{k}", Outer(s16="a" * k)))
+            out.append((f"bytes2047-{k}", Outer(b2047=b"x" * k)))
+            out.append((f"str2048-{k}", Outer(s2048="a" * k)))
+            out.append((f"child3-{k}", Outer(m3=Inner(s="a" * k))))
+            out.append((f"child17-{k}", Outer(m17=Inner(b=b"x" * k))))
+            out.append((f"rep-str-{k}", Outer(rs5=["", "a" * k])))
+            out.append((f"rep-child-{k}", Outer(rm19=[Inner(), Inner(s="a" * k)])))
+            out.append((f"map-bytes-{k}", Outer(mp6={"k": b"x" * k})))
+            out.append((f"map-key-{k}", Outer(mp6={"a" * k: b""})))
+            out.append((f"map-child-{k}", Outer(mp20={-1: Inner(s="a" * k)})))
+            out.append((f"optional-{k}", Outer(o7="a" * k)))
+            out.append((f"oneof-bytes-{k}", Outer(u8=b"x" * k)))
+            out.append((f"oneof-child-{k}", Outer(u21=Inner(s="a" * k))))
+        if n % 4 == 0 or True:
+            out.append((f"packed-fixed32-{n // 4}", Outer(r4=list(range(n // 4)))))
+        out.append((f"packed-bool-{n}", Outer(r18=[bool(i & 1) for i in range(n)])))
+    return out
+
+
 def run(ctx):
     import betterproto as bp
     rng = ctx.rng
@@ -92,7 +141,7 @@ def run(ctx):
             ctx.fail("oracle", f"regression ({what}): {p}", input=failing_input(matrix, m, tree))
         ctx.count("corpus")
     matrix.dispose()
-    schemas = [msggen.matrix_schema()] + [msggen.random_schema(rng) for _ in range(6 if not ctx.thorough else 60)]
+    schemas = [msggen.matrix_schema()] + [msggen.random_schema(rng) for _ in range(6 if not ctx.thorough else 60)] + [length_schema()]
     prelude = "\n".join(f"Definition sc{i} : schema := {s.coq()}." for i, s in enumerate(schemas))
     pairs, meta = [], []
     n_per = (150 if not ctx.thorough else 1500)
@@ -144,6 +193,24 @@ def run(ctx):
                 ctx.count("further_oracle_failures")
             if len(ctx.cov["samples"]) < 6 and ok and b:
                 ctx.sample({"class": s.classes[ci].name, "repr": repr(m)[:300], "bytes": b.hex()[:200]})
+    # ---- length-prefix boundaries (oracle on all of them; model correspondence on the short ones)
+    ls = schemas[-1]
+    for tag, m in length_cases(ls):
+        ctx.cov["evaluations"] += 1
+        ctx.count("length_boundary_cases")
+        probs = property_problems(m)
+        if probs:
+            ctx.fail("oracle", f"length boundary case {tag}: {probs[0]}", all_problems=probs,
+                     input={"schema_spec": msggen.schema_spec(ls), "case": tag, "repr": repr(m)[:300]})
+            break
+        try:
+            if len(bytes(m)) <= 300:
+                lit = msggen.obj_literal(ls, m)
+                exp = cl([outcome(lambda: len(m), cz), outcome(lambda: bytes(m), cb)])
+                pairs.append((f"(let o := {lit} in CL [cv_z_res (len_obj sc{len(schemas) - 1} o); cv_bytes_res (enc_obj sc{len(schemas) - 1} o)])", exp))
+                meta.append((len(schemas) - 1, 1, m))
+        except msggen.Unmodellable:
+            pass
     # ---- second observation of the same objects after an in-place mutation (list append / dict store / assignment inside
     #      a nested message / plain assignment): len() and dump() must follow the new state, not an earlier walk
     first_round = list(meta)
